@@ -375,6 +375,48 @@ func hC09race(syncMode int) {
 
 func H_C09_race() { hC09race(0) }
 
+// H_C09_syncerr: one Sync call issued by Close fails with an I/O error (symbolic
+// choice which). Either Close reports an error (then nothing is promised), or it
+// returns nil - and then the power failure afterwards must not lose anything.
+func H_C09_syncerr() {
+	n := 2
+	vlen := 2
+	pfs := &powerFS{inner: fs.Mem}
+	rec := 10 + 8 + vlen
+	dir := "c09e"
+	db, err := Open(dir, smallOpts(pfs, 2, rec))
+	vAssert(err == nil, "C09e.open")
+	if err != nil {
+		return
+	}
+	r := newRef(n, 8)
+	for _, k := range []int{0, 1, 0} {
+		applyOp(db, r, 0, k, vlen, "C09e.prefix")
+	}
+	code := vCase() % (2 * n)
+	op, k := decodeOp(code, n)
+	applyOp(db, r, op, k, vlen, "C09e.step")
+	pfs.failSync = true
+	cerr := db.Close()
+	pfs.failSync = false
+	if cerr != nil {
+		vCover("C09e.close-reported-the-sync-error")
+		return
+	}
+	if pfs.syncFailed {
+		vCover("C09e.close-returned-nil-although-a-sync-failed")
+	}
+	pfs.powerFail()
+	db2, err := Open(dir, smallOpts(fs.Mem, 2, rec))
+	vAssert(err == nil, "C09e.open-after-power-loss-succeeds")
+	if err != nil {
+		return
+	}
+	checkReads(db2, r, "C09e.after")
+	checkItems(db2, r, "C09e.after")
+	vCover("C09e.done")
+}
+
 func H_C09_q()   { hC09(2, 2, 1, 2, 0, false) }
 func H_C09_sw()  { hC09(2, 2, 1, 2, 1, false) }
 func H_C09_mid() { hC09(2, 2, 1, 2, 0, true) }
